@@ -14,7 +14,7 @@ import (
 func init() {
 	eng.Register(&eng.Check{
 		ID:          "C10",
-		Rule:        "E2 language explorer over bytes: (a) ALL byte strings of length <=4 (thorough <=5) over a 31-symbol alphabet with one representative per lexical class of the grammar (a n o t i s 0 1 - . \" ` / ~ _ ( ) { } [ ] , = ! space backslash NUL 0xFF 0xC3(truncated lead byte) and the 2-byte e-acute); (b) every sequence of <=2 tokens of the extended C15 token alphabet and <=3 of the base alphabet, all gap patterns; (c) every derivation of the C15 derivation set with one bad element (NUL, 0xFF, 0xC3, a lone quote of either kind, \"\\x\", \"\\400\", \"\\\", newline, [, (, {) injected at EVERY byte position; oracle on the real code: CreateEvaluator, CreateFilter, grammar.Parse never panic; evaluator xor error (nil filter only for \"\"); Parse error is nil exactly when CreateEvaluator accepts, then its value is a non-nil Expression; every accepted evaluator evaluates 10 probe data (the last one twice in a row) (maps / lists / structs with every scalar kind incl. unsigned, float, bool, nil) (err => false, no panic), executes as a filter and its tree dumps without panic. Distinct by construction within each family; non-trivial = input accepted (the evaluator was exercised) or rejected with a nil result as required (both directions are meaningful; counted: accepted ones).",
+		Rule:        "E2 language explorer over bytes: (a) ALL byte strings of length <=4 (thorough <=5) over a 31-symbol alphabet with one representative per lexical class of the grammar (a n o t i s 0 1 - . \" ` / ~ _ ( ) { } [ ] , = ! space backslash NUL 0xFF 0xC3(truncated lead byte) and the 2-byte e-acute); (b) every sequence of <=2 tokens of the extended C15 token alphabet and <=3 of the base alphabet, all gap patterns; (c) every derivation of the C15 derivation set with one bad element (NUL, 0xFF, 0xC3, a lone quote of either kind, \"\\x\", \"\\400\", \"\\\", newline, [, (, {) injected at EVERY byte position; oracle on the real code: CreateEvaluator, CreateFilter, grammar.Parse never panic; evaluator xor error (nil filter only for \"\"); Parse error is nil exactly when CreateEvaluator accepts, then its value is a non-nil Expression; every accepted evaluator evaluates 13 probe data (strings under every name twice in a row, non-empty lists and maps under every name) (maps / lists / structs with every scalar kind incl. unsigned, float, bool, nil) (err => false, no panic), executes as a filter and its tree dumps without panic. Distinct by construction within each family; non-trivial = input accepted (the evaluator was exercised) or rejected with a nil result as required (both directions are meaningful; counted: accepted ones).",
 		Assumptions: []string{"bounded: strings over class representatives, not all 256 byte values", "coverage-guided fuzzing (a different family) is deliberately not used"},
 		Run:         runC10,
 	})
@@ -30,7 +30,25 @@ var c10Probes = []interface{}{
 	// a string under every name the derivations use, evaluated TWICE (whatever the first evaluation left behind - a compiled or
 	// uncompilable pattern, a coerced or uncoercible literal - the second one must still return)
 	c10Strings, c10Strings,
+	// every name a non-empty list / a non-empty map (quantifier bodies are really entered)
+	c10Lists, c10Maps, c10Lists,
 }
+
+var c10Lists = func() map[string]interface{} {
+	m := map[string]interface{}{}
+	for _, k := range []string{"a", "b", "x", "y", "n", "o", "t", "i", "s", "k", "v", "l", "m", "foo", "bar", ""} {
+		m[k] = []interface{}{"a", "", []interface{}{""}, map[string]interface{}{"b": "s", "0": 1}}
+	}
+	return m
+}()
+
+var c10Maps = func() map[string]interface{} {
+	m := map[string]interface{}{}
+	for _, k := range []string{"a", "b", "x", "y", "n", "o", "t", "i", "s", "k", "v", "l", "m", "foo", "bar", ""} {
+		m[k] = map[string]interface{}{"b": "s", "a": "", "0": []interface{}{"x"}, "b c": 1.5}
+	}
+	return m
+}()
 
 var c10Strings = map[string]interface{}{"a": "a", "b": "b", "x": "x", "y": "y", "n": "n", "o": "o", "t": "t", "i": "i", "s": "s", "k": "k", "v": "v", "l": []string{"a", "("}, "m": map[string]string{"a": "("},
 	"foo": "foo", "bar": "bar", "": "e"}
@@ -194,41 +212,7 @@ func runC10(c *eng.Ctx) {
 	}
 	// (b) token sequences
 	if c.Want("f", 2) {
-		idx := 0
-		seqs := func(toks []string, k int) {
-			total := 1
-			for i := 0; i < k; i++ {
-				total *= len(toks)
-			}
-			seq := make([]string, k)
-			for t := 0; t < total; t++ {
-				x := t
-				for i := 0; i < k; i++ {
-					seq[i] = toks[x%len(toks)]
-					x /= len(toks)
-				}
-				for g := 0; g < 1<<uint(k-1); g++ {
-					idx++
-					if !c.Mine(idx) || !c.Want("i", idx) {
-						continue
-					}
-					if idx%256 == 0 && c.Expired() {
-						return
-					}
-					var b []byte
-					for i, tk := range seq {
-						if i > 0 && g&(1<<uint(i-1)) != 0 {
-							b = append(b, ' ')
-						}
-						b = append(b, tk...)
-					}
-					c10Probe(c, b, map[string]int{"f": 2, "i": idx})
-				}
-			}
-		}
-		seqs(c15Ext, 1)
-		seqs(c15Ext, 2)
-		seqs(append(append([]string{}, c15Tokens...), "\"\"", "``", "-1", "1.5"), 3)
+		tokenInputs(c, 2, "i", func(b []byte, co map[string]int) { c10Probe(c, b, co) })
 	}
 	// (c) derivations with one bad element injected at every byte position
 	if c.Want("f", 3) {
@@ -252,4 +236,44 @@ func runC10(c *eng.Ctx) {
 			}
 		}
 	}
+}
+
+// tokenInputs enumerates every sequence of <=2 tokens of the extended C15 token alphabet and <=3 of the base alphabet (plus four
+// literal tokens), with every pattern of blanks between them; shared by the checks whose quantifier is "every accepted input".
+func tokenInputs(c *eng.Ctx, fam int, idxKey string, fn func(in []byte, co map[string]int)) {
+	idx := 0
+	seqs := func(toks []string, k int) {
+		total := 1
+		for i := 0; i < k; i++ {
+			total *= len(toks)
+		}
+		seq := make([]string, k)
+		for t := 0; t < total; t++ {
+			x := t
+			for i := 0; i < k; i++ {
+				seq[i] = toks[x%len(toks)]
+				x /= len(toks)
+			}
+			for g := 0; g < 1<<uint(k-1); g++ {
+				idx++
+				if !c.Mine(idx) || !c.Want(idxKey, idx) {
+					continue
+				}
+				if idx%256 == 0 && c.Expired() {
+					return
+				}
+				var b []byte
+				for i, tk := range seq {
+					if i > 0 && g&(1<<uint(i-1)) != 0 {
+						b = append(b, ' ')
+					}
+					b = append(b, tk...)
+				}
+				fn(b, map[string]int{"f": fam, idxKey: idx})
+			}
+		}
+	}
+	seqs(c15Ext, 1)
+	seqs(c15Ext, 2)
+	seqs(append(append([]string{}, c15Tokens...), "\"\"", "``", "-1", "1.5"), 3)
 }
